@@ -27,6 +27,16 @@ impl Tier {
 }
 
 pub const VERIF_DIR: &str = "/verif";
+/// where evidence, replays and journals are written: `/verif`, unless `NVCHECK_OUT` names a scratch
+/// directory (used by tools/sb.sh to try source patches in a scratch worktree without touching
+/// /verif/evidence); `known_findings.json` is always read from `/verif`
+pub fn out_dir() -> String {
+    std::env::var("NVCHECK_OUT").unwrap_or_else(|_| VERIF_DIR.to_string())
+}
+/// the repository whose README is read (C11): `/repo`, unless `NVCHECK_REPO` names a scratch worktree
+pub fn repo_dir() -> String {
+    std::env::var("NVCHECK_REPO").unwrap_or_else(|_| "/repo".to_string())
+}
 
 #[derive(Clone, Debug)]
 pub struct KnownFinding {
@@ -188,7 +198,7 @@ impl Run {
         g.violations += 1;
         if g.replay_files.len() < MAX_REPLAY_FILES {
             let n = g.replay_files.len();
-            let path = format!("{VERIF_DIR}/replays/{}-{}-{}.json", self.id, self.tier.name(), n);
+            let path = format!("{}/replays/{}-{}-{}.json", out_dir(), self.id, self.tier.name(), n);
             let body = json!({
                 "property": self.id,
                 "tier": self.tier.name(),
@@ -196,7 +206,7 @@ impl Run {
                 "features": features,
                 "case": case,
             });
-            let _ = std::fs::create_dir_all(format!("{VERIF_DIR}/replays"));
+            let _ = std::fs::create_dir_all(format!("{}/replays", out_dir()));
             let _ = std::fs::write(&path, serde_json::to_string_pretty(&body).unwrap());
             println!("VIOLATION property={} replay={}", self.id, path);
             println!("  {summary}");
@@ -250,8 +260,8 @@ impl Run {
             "wall_s": self.elapsed(),
             "violations": g.violations,
         });
-        let _ = std::fs::create_dir_all(format!("{VERIF_DIR}/evidence"));
-        let path = format!("{VERIF_DIR}/evidence/{}.json", self.id);
+        let _ = std::fs::create_dir_all(format!("{}/evidence", out_dir()));
+        let path = format!("{}/evidence/{}.json", out_dir(), self.id);
         std::fs::write(&path, serde_json::to_string_pretty(&ev).unwrap()).expect("write evidence");
         for (f, (n, ex)) in g.known_fired.iter() {
             let what = self
